@@ -93,6 +93,9 @@ func main() {
 		fmt.Fprintf(os.Stderr, "bad tier %q\n", ctx.Tier)
 		os.Exit(ev.ExitBroken)
 	}
+	if ctx.Replay != "" {
+		os.Setenv("VERIF_EVIDENCE_SUFFIX", ".replay")
+	}
 	f, ok := monitors[ctx.ID]
 	if !ok {
 		fmt.Fprintf(os.Stderr, "no monitor for %q\n", ctx.ID)
